@@ -26,7 +26,7 @@ import mockrepo
 
 MOF = """
 class CIM_ManagedElement {
-  string InstanceID; string Caption; string Description; string ElementName;
+  string Caption; string Description; string ElementName;
 };
 class CIM_ObjectManager : CIM_ManagedElement {
   [Key] string SystemCreationClassName; [Key] string SystemName;
@@ -34,7 +34,7 @@ class CIM_ObjectManager : CIM_ManagedElement {
   string Version;
 };
 class CIM_RegisteredProfile : CIM_ManagedElement {
-  [Key, Override("InstanceID")] string InstanceID;
+  [Key] string InstanceID;
   [ValueMap {"1","2","11","19"},
    Values {"Other","DMTF","SNIA","The Open Group"}]
   uint16 RegisteredOrganization;
@@ -138,9 +138,57 @@ class ShimConn(pywbem_mock.FakedWBEMConnection):
 
 
 _TEMPLATES = {}
+_MASTER = None
 
 
-def _new_conn(interops, with_ns_class=True, provider=True, extra_mof="",
+def master():
+    """(qualifier declarations, classes in superclass-first order) compiled
+    once; servers are populated with add_cimobjects (a MOF compiler object
+    costs ~0.2 s, far too much per world)."""
+    global _MASTER
+    if _MASTER is None:
+        m = pywbem_mock.FakedWBEMConnection(default_namespace="m")
+        m.compile_mof_string(
+            mockrepo.QUALIFIERS + MOF + MOF_CIM_NAMESPACE +
+            MOF_WBEMSERVER_NAMESPACE + MOF_UU_NAMESPACE, namespace="m")
+        quals = m.EnumerateQualifiers(namespace="m")
+        classes = []
+
+        def rec(cn):
+            for c in m.EnumerateClasses(namespace="m", ClassName=cn,
+                                        LocalOnly=True, IncludeQualifiers=True,
+                                        IncludeClassOrigin=False):
+                classes.append(c)
+                rec(c.classname)
+        rec(None)
+        _MASTER = (m, quals, classes)
+    return _MASTER
+
+
+NS_CLASSNAMES = {"CIM": "CIM_Namespace", "WSN": "CIM_WBEMServerNamespace",
+                 "UU": "__Namespace"}
+
+
+def populate(conn, ns, nscls=("CIM",), only_qualifiers=False):
+    """Put the schema into namespace ns of conn (no MOF compiler)."""
+    m, quals, classes = master()
+    skip = set(v for k, v in NS_CLASSNAMES.items() if k not in nscls)
+    objs = list(quals)
+    if not only_qualifiers:
+        objs += [c for c in classes if c.classname not in skip]
+    conn.add_cimobjects(copy.deepcopy(objs), namespace=ns)
+    if not only_qualifiers:
+        # machinery self-check: the copy is the compiled schema
+        for cn in ("CIM_RegisteredProfile", "TST_C2", "CIM_ReferencedProfile"):
+            a = m.GetClass(cn, namespace="m", LocalOnly=False,
+                           IncludeQualifiers=True)
+            b = conn.GetClass(cn, namespace=ns, LocalOnly=False,
+                              IncludeQualifiers=True)
+            if a.tomof() != b.tomof():
+                raise RuntimeError("schema copy differs for %s" % cn)
+
+
+def _new_conn(interops, with_ns_class=True, provider=True,
               other_ns=(RES_NS,)):
     """Template server.  interops: concrete names of the Interop namespaces
     (the first one through the mock's API, further ones at repository level:
@@ -151,14 +199,12 @@ def _new_conn(interops, with_ns_class=True, provider=True, extra_mof="",
             conn.add_namespace(name)
         else:
             conn.cimrepository.add_namespace(name)
-    mof = mockrepo.QUALIFIERS + MOF + extra_mof
     for ns in list(interops):
-        conn.compile_mof_string(
-            mof + (MOF_CIM_NAMESPACE if with_ns_class else ""), namespace=ns)
+        populate(conn, ns, ("CIM",) if with_ns_class else ())
     for ns in other_ns:
         if ns.lower() not in [n.lower() for n in conn.namespaces]:
             conn.add_namespace(ns)
-        conn.compile_mof_string(mockrepo.QUALIFIERS + MOF, namespace=ns)
+        populate(conn, ns, ())
     if interops and with_ns_class and provider:
         conn.install_namespace_provider(interops[0])
     return conn
@@ -358,6 +404,49 @@ def random_world(rng, max_edges=7, res=("r1", "r2", "r3", "r4", "r5", "r6")):
     return w
 
 
+def scoping_world(rng):
+    """Seeded world around a complete scoping scenario (p1 component of a
+    scoping profile, 1-hop and 2-hop chains) plus noise."""
+    q = rng.choice(["p2", "p3"])
+    w = dict(ectp=[], rp=[], a1=[], a2=[],
+             cm={"p1": "unsup", "p2": "impl", "p3": "impl"})
+    w["rp"].append(rng.choice([["p1", q], [q, "p1"]]))
+    if rng.random() < 0.15:        # a second referencing profile: ambiguous
+        other = "p3" if q == "p2" else "p2"
+        w["rp"].append(["p1", other] if w["rp"][0][0] == "p1"
+                       else [other, "p1"])
+        w["ectp"].append([other, rng.choice(["r1", "r5"])])
+    scoping = rng.sample(["r1", "r5", "r2"], rng.randint(1, 2))
+    for r in scoping:
+        w["ectp"].append([q, r])
+
+    def edge(k, x, y):
+        e = [x, y] if rng.random() < 0.5 else [y, x]
+        if x != y and e not in w[k]:
+            w[k].append(e)
+    for s_ in scoping:
+        if rng.random() < 0.7:                      # 2-hop: s -A2- m -A1- c
+            edge("a2", s_, "r2")
+            for c in rng.sample(["r3", "r4", "r6", "r1"], rng.randint(1, 2)):
+                edge("a1", "r2", c)
+        if rng.random() < 0.6:                      # 1-hop: s -A1- c
+            edge("a1", s_, rng.choice(["r3", "r4", "r6", "r2"]))
+    for _ in range(rng.randint(0, 3)):              # noise
+        k = rng.choice(["a1", "a2", "ectp", "rp"])
+        if k == "ectp":
+            e = [rng.choice(PROFILES), rng.choice(list(RESOURCES))]
+            if e not in w[k]:
+                w[k].append(e)
+        elif k == "rp":
+            e = rng.sample(PROFILES, 2)
+            if e not in w[k]:
+                w[k].append(e)
+        else:
+            x, y = rng.sample(list(RESOURCES), 2)
+            edge(k, x, y)
+    return w
+
+
 def world_from_tlc(v):
     """World printed by TLC (parse_tla_value + unset) -> JSON world."""
     return dict(ectp=[list(e) for e in v["ectp"]],
@@ -373,3 +462,446 @@ def query_from_tlc(v):
                         path=list(v["sp"]["path"])),
                 dir=v["dir"], gci=v["gci"], gl=list(v["gl"]),
                 ptype=v["ptype"])
+
+
+# ----------------------------------------------------------------------------
+# the WBEMServer object: worlds (servers) and calls
+# ----------------------------------------------------------------------------
+
+SPELL_A = {"i1": "interop", "i2": "root/interop", "i3": "root/PG_Interop",
+           "n1": "root/n1", "n2": "root/sub/n2", "n3": "n3"}
+SPELL_B = {"i1": ["Interop", "INTEROP"], "i2": ["Root/Interop", "ROOT/INTEROP"],
+           "i3": ["root/pg_interop", "ROOT/PG_INTEROP"],
+           "n1": ["ROOT/N1", "Root/N1"], "n2": ["Root/Sub/N2", "ROOT/sub/n2"],
+           "n3": ["N3"]}
+NSCLASS = {"CIM": "CIM_Namespace", "WSN": "CIM_WBEMServerNamespace",
+           "UU": "__Namespace"}
+NSCLASS_MOF = {"CIM": MOF_CIM_NAMESPACE, "WSN": MOF_WBEMSERVER_NAMESPACE,
+               "UU": MOF_UU_NAMESPACE}
+from pywbem_mock.config import (OBJECTMANAGERNAME, SYSTEMNAME,  # noqa: E402
+                                SYSTEMCREATIONCLASSNAME,
+                                OBJECTMANAGERCREATIONCLASSNAME)
+# the keys the mock's namespace provider uses for the instances it creates
+OM_KEYS = dict(SystemCreationClassName=SYSTEMCREATIONCLASSNAME,
+               SystemName=SYSTEMNAME,
+               CreationClassName=OBJECTMANAGERCREATIONCLASSNAME)
+EN_TEXT = {"pegasus": ["Pegasus", "OpenPegasus"], "sfcb": ["sfcb", "SFCB"],
+           "jwbem": ["WBEM Solutions J WBEM Server", "WS J WBEM Server"],
+           "emc": ["EMC CIM Server"],
+           "fujitsu": ["CIM Object Manager for FUJITSU storage system"],
+           "other": ["Mock_Test", "ACME CIMOM"], "empty": [""]}
+DESC_PREFIX = {"pegasus": "Pegasus CIM Server", "sfcb": "Small Footprint CIM Broker",
+               "jwbem": "WS J WBEM Server", "emc": "EMC CIM Server",
+               "fujitsu": "CIM Object Manager for FUJITSU storage system"}
+BRAND_TOKEN = {"OpenPegasus": "OpenPegasus", "SFCB": "SFCB",
+               "WBEM Solutions J WBEM Server": "JWBEM", "EMC CIM Server": "EMC",
+               "FUJITSU CIM Object Manager": "FUJITSU"}
+ORG_VALUE = {"dmtf": 2, "snia": 11, "other": 1, "unmapped": 7}
+ORG_FILTER = {"dmtf": ["DMTF", "dmtf", "Dmtf"], "snia": ["SNIA", "snia"],
+              "other": ["Other", "OTHER"], "nomatch": ["ACME"]}
+NAME_VALUE = {"na": "Alpha Profile", "nb": "Beta"}
+NAME_FILTER = {"na": ["Alpha Profile", "alpha profile", "ALPHA PROFILE"],
+               "nb": ["Beta", "BETA"], "nomatch": ["Gamma"]}
+VER_VALUE = {"v1": "1.0.0", "v2": "1.4.0a"}
+VER_FILTER = {"v1": ["1.0.0"], "v2": ["1.4.0a", "1.4.0A"], "nomatch": ["9.9"]}
+
+
+def _server_template(interop_names, nscls, provider):
+    def build():
+        conn = ShimConn(default_namespace=interop_names[0] if interop_names
+                        else "root/other")
+        for i, name in enumerate(interop_names):
+            if i > 0:
+                conn.cimrepository.add_namespace(name)
+            populate(conn, name, tuple(nscls))
+        if provider:
+            conn.install_namespace_provider(interop_names[0])
+        return conn
+    return build
+
+
+class ServerWorld:
+    """A pywbem_mock server built from an abstract world and one WBEMServer
+    object at a time; every call is recorded as one event."""
+
+    def __init__(self, rng, world):
+        self.rng = rng
+        self.world = world
+        self.spell = {(i, "a"): s for i, s in SPELL_A.items()}
+        for i, alts in SPELL_B.items():
+            self.spell[(i, "b")] = rng.choice(alts)
+        self.unspell = {v: k for k, v in self.spell.items()}
+        # "s": a server that lists names with leading and trailing slash
+        for i, a in SPELL_A.items():
+            self.spell[(i, "s")] = "/%s/" % a
+        inames = [self.spell[(x["id"], x["cs"])] for x in world["interops"]]
+        prov = world["nskind"] == "prov"
+        self.conn = conn = template(
+            ("srv", tuple(inames), tuple(world["nscls"]), prov),
+            _server_template(inames, world["nscls"], prov))
+        self.interop = inames[0] if inames else None
+        self.events = [dict(op="world", w=world)]
+        self.info = ["world %s" % (world,)]
+        # ordinary namespaces
+        for x in world["ns"]:
+            name = self.spell[(x["id"], x["cs"])]
+            if prov:
+                conn.CreateInstance(self._ns_instance("CIM_Namespace", name),
+                                    namespace=self.interop)
+            else:
+                conn._mainprovider.add_namespace(name)
+            if x["full"]:
+                populate(conn, name, (), only_qualifiers=True)
+        # static listings (same names in every listing class)
+        if world["nskind"] == "static":
+            for c in world["nscls"]:
+                for x in world["listed"]:
+                    name = self.spell[(x["id"], x["cs"])]
+                    for ins in inames:
+                        conn.CreateInstance(
+                            self._ns_instance(NSCLASS[c], name), namespace=ins)
+                        if c == "CIM" and world.get("dup"):
+                            # same Name, other keys differ: a duplicate name
+                            d = self._ns_instance(NSCLASS[c], name)
+                            d["SystemName"] = "othersystem"
+                            conn.CreateInstance(d, namespace=ins)
+        # object managers
+        for n, om in enumerate(world["om"]):
+            inst = self._om_instance(n, om)
+            for ins in inames:
+                conn.CreateInstance(inst.copy(), namespace=ins)
+        # profiles
+        for p in world["profs"]:
+            for ins in inames:
+                conn.CreateInstance(self._profile_instance(p), namespace=ins)
+        self.server = pywbem.WBEMServer(conn)
+
+    # -- instances ---------------------------------------------------------
+    def _ns_instance(self, cls, name):
+        if cls == "CIM_Namespace":
+            props = dict(SystemCreationClassName=SYSTEMCREATIONCLASSNAME,
+                         SystemName=SYSTEMNAME,
+                         ObjectManagerCreationClassName=
+                         OBJECTMANAGERCREATIONCLASSNAME,
+                         ObjectManagerName=OBJECTMANAGERNAME,
+                         CreationClassName=cls, Name=name)
+        else:
+            props = dict(Name=name)
+        return CIMInstance(cls, properties=props)
+
+    def _om_instance(self, n, om):
+        rng = self.rng
+        props = [CIMProperty(k, v) for k, v in OM_KEYS.items()]
+        props.append(CIMProperty("Name", OBJECTMANAGERNAME if n == 0
+                                 else "om%d" % n))
+        self.om_text = getattr(self, "om_text", {})
+        if om["en"] != "unset":
+            en = rng.choice(EN_TEXT[om["en"]])
+            props.append(CIMProperty("ElementName", en))
+            self.om_text[n] = en
+        elif len(self.world["om"]) == 1 and rng.random() < 0.5:
+            props.append(CIMProperty("ElementName", None, type="string"))
+        prefix = DESC_PREFIX.get(om["en"], "Some CIM Server")
+        word = rng.choice(["Version", "version", "VERSION"])
+        relword = rng.choice(["release", "Release"])
+        text = {"ver": "%s %s 2.15.0" % (prefix, word),
+                "verrel": "%s %s 2.15.0 Released" % (prefix, word),
+                "rel": "%s %s 2.15.0" % (prefix, relword),
+                "num": "%s 2.15.0" % prefix,
+                "text": prefix}.get(om["desc"])
+        if text is not None:
+            props.append(CIMProperty("Description", text))
+        elif rng.random() < 0.5:
+            props.append(CIMProperty("Description", None, type="string"))
+        if om["ver"] == "set":
+            props.append(CIMProperty("Version", "4.5.1"))
+        return CIMInstance("CIM_ObjectManager", properties=props)
+
+    def _profile_instance(self, p):
+        props = [CIMProperty("InstanceID", p["id"])]
+        if p["org"] == "null":
+            props.append(CIMProperty("RegisteredOrganization", None,
+                                     type="uint16"))
+        else:
+            props.append(CIMProperty("RegisteredOrganization",
+                                     Uint16(ORG_VALUE[p["org"]])))
+        if p["name"] == "null":
+            props.append(CIMProperty("RegisteredName", None, type="string"))
+        elif p["name"] != "absent":
+            props.append(CIMProperty("RegisteredName", NAME_VALUE[p["name"]]))
+        if p["ver"] == "null":
+            props.append(CIMProperty("RegisteredVersion", None, type="string"))
+        else:
+            props.append(CIMProperty("RegisteredVersion", VER_VALUE[p["ver"]]))
+        return CIMInstance("CIM_RegisteredProfile", properties=props)
+
+    # -- projection --------------------------------------------------------
+    def nm(self, s):
+        if not isinstance(s, str):
+            return dict(id="UNCLASSIFIED:%r" % (s,), cs="?", sl=False)
+        bare = s.strip("/")
+        sl = bare != s
+        if bare in self.unspell:
+            i, cs = self.unspell[bare]
+            return dict(id=i, cs=cs, sl=sl)
+        for (i, cs), v in self.spell.items():
+            if v.lower() == bare.lower():
+                return dict(id=i, cs="?", sl=sl)
+        if bare.lower() == "root/other":
+            return dict(id="other", cs="a", sl=sl)
+        return dict(id="UNCLASSIFIED:%s" % s, cs="?", sl=sl)
+
+    def nm2(self, s):
+        d = self.nm(s)
+        if d["sl"]:           # a name with slashes is not the name
+            return dict(id=d["id"],
+                        cs="s" if self.spell.get((d["id"], "s")) == s else "?")
+        return dict(id=d["id"], cs=d["cs"])
+
+    def observe(self, fn, project, empty):
+        """-> (dict k, code, **projected)"""
+        try:
+            with warnings.catch_warnings():
+                warnings.simplefilter("ignore")
+                r = fn()
+        except CIMError as exc:
+            return dict(k="CIMError", code=int(exc.status_code), **empty)
+        except Exception as exc:  # noqa: every exception class is an observation
+            return dict(k=type(exc).__name__, code=0, **empty)
+        try:
+            return dict(k="ok", code=0, **project(r))
+        except Exception as exc:  # noqa
+            return dict(k="UNCLASSIFIED:%s" % type(exc).__name__, code=0,
+                        **empty)
+
+    def srvns(self):
+        out = [self.nm2(n) for n in self.conn.cimrepository.namespaces]
+        return [x for x in out if x["id"] != "other"]
+
+    def view(self):
+        return self.observe(lambda: list(self.server.namespaces),
+                            lambda r: dict(names=[self.nm2(n) for n in r
+                                                  if self.nm2(n)["id"] != "other"]),
+                            dict(names=[]))
+
+    # -- calls -------------------------------------------------------------
+    def record(self, ev, what):
+        self.events.append(ev)
+        self.info.append(what)
+
+    def call(self, c):
+        op = c["op"]
+        s = self.server
+        if op == "new":
+            self.server = pywbem.WBEMServer(self.conn)
+            self.record(dict(op="new"), "server = WBEMServer(conn)")
+        elif op == "interop":
+            def proj(r):
+                d = self.nm(r)
+                return dict(id=d["id"], cs="?" if d["sl"] else d["cs"])
+            self.record(dict(op=op, res=self.observe(
+                lambda: s.interop_ns, proj, dict(id="", cs=""))),
+                "server.interop_ns")
+        elif op == "namespaces":
+            self.record(dict(op=op, res=self.view()), "server.namespaces")
+        elif op == "classname":
+            rev = {v: k for k, v in NSCLASS.items()}
+            self.record(dict(op=op, res=self.observe(
+                lambda: s.namespace_classname,
+                lambda r: dict(cls=rev.get(r, "UNCLASSIFIED:%r" % (r,))),
+                dict(cls=""))), "server.namespace_classname")
+        elif op == "paths":
+            rev = {v.lower(): k for k, v in NSCLASS.items()}
+
+            def proj(r):
+                names, cls = [], []
+                for p in r:
+                    names.append(self.nm2(p.keybindings["Name"]))
+                    t = rev.get(p.classname.lower(), "UNCLASSIFIED")
+                    if (p.namespace or "").lower() != \
+                            (self.server.interop_ns or "").lower():
+                        t = "UNCLASSIFIED:namespace"
+                    if t not in cls:
+                        cls.append(t)
+                return dict(names=[n for n in names if n["id"] != "other"],
+                            cls=cls)
+            self.record(dict(op=op, res=self.observe(
+                lambda: s.namespace_paths, proj, dict(names=[], cls=[]))),
+                "server.namespace_paths")
+        elif op in ("create", "delete"):
+            a = c["n"]
+            name = self.spell[(a["id"], a["cs"])]
+            if a["sl"]:
+                name = self.rng.choice(["/%s", "%s/", "/%s/", "//%s"]) % name
+            fn = s.create_namespace if op == "create" else s.delete_namespace
+            res = self.observe(lambda: fn(name),
+                               lambda r: dict(ret=self.nm(r)),
+                               dict(ret=dict(id="", cs="", sl=False)))
+            self.record(dict(op=op, n=a, res=res, srvns=self.srvns(),
+                             view=self.view()),
+                        "server.%s_namespace(%r)" % (op, name))
+        elif op in ("brand", "version"):
+            def proj(r):
+                if op == "brand":
+                    if r in BRAND_TOKEN:
+                        v = BRAND_TOKEN[r]
+                    elif r == "unknown":
+                        v = "unknown"
+                    elif r and r == getattr(self, "om_text", {}).get(0):
+                        v = "asis"
+                    else:
+                        v = "UNCLASSIFIED:%r" % (r,)
+                else:
+                    v = {None: "none", "2.15.0": "v", "2.15.0 Released": "vrest",
+                         "d": "reltail",
+                         "4.5.1": "prop"}.get(r, "UNCLASSIFIED:%r" % (r,))
+                return dict(val=v)
+            self.record(dict(op=op, res=self.observe(
+                lambda: getattr(s, op), proj, dict(val=""))), "server.%s" % op)
+        elif op == "profiles":
+            self.record(dict(op=op, res=self.observe(
+                lambda: s.profiles,
+                lambda r: dict(ids=[i.path.keybindings["InstanceID"] if i.path
+                                    else "UNCLASSIFIED" for i in r]),
+                dict(ids=[]))), "server.profiles")
+        elif op == "select":
+            rng = self.rng
+            args = {}
+            for key, tok, table in (("registered_org", c["org"], ORG_FILTER),
+                                    ("registered_name", c["name"], NAME_FILTER),
+                                    ("registered_version", c["ver"], VER_FILTER)):
+                if tok:
+                    args[key] = rng.choice(table[tok])
+                elif rng.random() < 0.5:
+                    args[key] = None
+            self.record(dict(op=op, org=c["org"], name=c["name"], ver=c["ver"],
+                             res=self.observe(
+                                 lambda: s.get_selected_profiles(**args),
+                                 lambda r: dict(ids=[i["InstanceID"] for i in r]),
+                                 dict(ids=[]))),
+                        "server.get_selected_profiles(%s)" % args)
+        else:
+            raise ValueError(op)
+
+
+def tlc_world(v):
+    """World record printed by TLC -> JSON world."""
+    return dict(
+        interops=[dict(id=x["id"], cs=x["cs"]) for x in v["interops"]],
+        nskind=v["nskind"], nscls=list(v["nscls"]),
+        listed=[dict(id=x["id"], cs=x["cs"]) for x in v["listed"]],
+        ns=[dict(id=x["id"], cs=x["cs"], full=bool(x["full"])) for x in v["ns"]],
+        om=[dict(en=x["en"], desc=x["desc"], ver=x["ver"]) for x in v["om"]],
+        profs=[dict(id=x["id"], org=x["org"], name=x["name"], ver=x["ver"])
+               for x in v["profs"]])
+
+
+PLAIN_OM = [dict(en="other", desc="ver", ver="unset")]
+
+
+def random_server_world(rng):
+    def nm(i, cs=None):
+        return dict(id=i, cs=cs or rng.choice(["a", "b"]))
+    kind = rng.choice(["prov", "prov", "prov", "static", "none"])
+    if kind == "none":
+        interops = rng.choice([[], [nm("i1")], [nm("i2")], [nm("i3")],
+                               [nm("i2"), nm("i3")], [nm("i3"), nm("i1")],
+                               [nm("i1"), nm("i2"), nm("i3")]])
+    else:
+        interops = [nm(rng.choice(["i1", "i2", "i3"]))]
+    ns = []
+    for i in rng.sample(["n1", "n2", "n3"], rng.randint(0, 3)):
+        ns.append(dict(id=i, cs=rng.choice(["a", "b"]),
+                       full=rng.random() < 0.35))
+    nscls, listed = [], []
+    if kind == "prov":
+        nscls = ["CIM"]
+    elif kind == "static":
+        nscls = rng.choice([["WSN"], ["UU"], ["CIM"], ["WSN", "UU"],
+                            ["UU", "CIM"], ["CIM", "WSN", "UU"]])
+        listed = [nm(i, rng.choice(["a", "b", "s"]))
+                  for i in rng.sample(["n1", "n2", "n3"], rng.randint(0, 3))]
+        if rng.random() < 0.5:
+            listed.append(dict(interops[0]))
+        elif rng.random() < 0.3:
+            listed.append(dict(id=interops[0]["id"], cs="s"))
+        rng.shuffle(listed)
+    profs = []
+    for j in range(rng.randint(0, 3)):
+        profs.append(dict(id="q%d" % (j + 1),
+                          org=rng.choice(["dmtf", "snia", "other", "null"]),
+                          name=rng.choice(["na", "nb", "null"]),
+                          ver=rng.choice(["v1", "v2", "null"])))
+    w = dict(interops=interops, nskind=kind, nscls=nscls, listed=listed,
+             ns=ns, om=list(PLAIN_OM), profs=profs)
+    if kind == "static" and rng.random() < 0.3:
+        w["dup"] = True       # harness-only: duplicate names in the listing
+    return w
+
+
+def random_calls(rng, world, n, risky=False):
+    """Seeded call sequence.  risky: include the calls that run into the
+    listed defects (different-case create of an existing namespace /
+    different-case delete), which end the judged part of a trace early."""
+    calls = []
+    mut = world["nskind"] in ("prov", "none")
+    known = {x["id"]: x["cs"] for x in world["ns"]}
+    known.update({x["id"]: x["cs"] for x in world["interops"]})
+    for _ in range(n):
+        x = rng.random()
+        if x < 0.08:
+            calls.append(dict(op="new"))
+        elif x < 0.2:
+            calls.append(dict(op="interop"))
+        elif x < 0.38:
+            calls.append(dict(op="namespaces"))
+        elif x < 0.44:
+            calls.append(dict(op="classname"))
+        elif x < 0.52:
+            calls.append(dict(op="paths"))
+        elif x < 0.9 and mut:
+            i = rng.choice(["n1", "n2", "n3", "n1", "n2", "i1", "i2"])
+            cs = rng.choice(["a", "b"])
+            op = rng.choice(["create", "delete"])
+            if not risky and i in known:
+                cs = known[i]                  # the spelling the server has
+            calls.append(dict(op=op, n=dict(id=i, cs=cs,
+                                            sl=rng.random() < 0.3)))
+            if op == "create" and i not in known and i.startswith("n"):
+                known[i] = cs
+            # (a failed delete keeps the entry: spelling stays the same)
+        elif x < 0.95:
+            calls.append(dict(op=rng.choice(["brand", "version", "profiles"])))
+        else:
+            calls.append(dict(op="select",
+                              org=rng.choice(["", "dmtf", "snia", "nomatch"]),
+                              name=rng.choice(["", "na", "nb", "nomatch"]),
+                              ver=rng.choice(["", "v1", "nomatch"])))
+    return calls
+
+
+def server_spellings(world, calls):
+    """Rewrite create/delete arguments that name an existing namespace to the
+    spelling the server has (first creation wins)."""
+    known = {x["id"]: x["cs"] for x in world["ns"]}
+    known.update({x["id"]: x["cs"] for x in world["interops"]})
+    out = []
+    for c in calls:
+        if c["op"] in ("create", "delete"):
+            n = dict(c["n"])
+            if n["id"] in known:
+                n["cs"] = known[n["id"]]
+            elif c["op"] == "create" and n["id"].startswith("n"):
+                known[n["id"]] = n["cs"]
+            c = dict(op=c["op"], n=n)
+        out.append(c)
+    return out
+
+
+class Unit:
+    """One call of a CentralWorld as a trace of its own."""
+
+    def __init__(self, w, i):
+        self.world = w.world
+        self.events = [w.events[0], w.events[i]]
+        self.info = [w.info[0], w.info[i]]
